@@ -315,6 +315,7 @@ def ker_skew(ctx):
     A = ev.A
     rk1 = next(iter({k[0] for k in pa['vel'].stores}))
     rows = {rk for rk, _, _ in pa['lla'].load_log if rk != rk1}
+    ctx.need(len(rows) == 1, 'kernel reads lla at rows %s' % sorted(rows))
     rk0 = next(iter(rows))
     # atoms standing for V_k and dv_k: by definition, not by name
     vat, dvat = {}, {}
